@@ -128,6 +128,48 @@ func genYOpts(t *rapid.T, label string) m.YOpts {
 	}
 }
 
+// blockRichFormula: two or three quantified blocks (nested / atLeast / atMost), some of them holding a block of their
+// own, side by side in one or / negated and / conditional - the translator puts them into one rule body, where the
+// names it invents for the blocks (allocated in document order) have to stay apart.
+func blockRichFormula(t *rapid.T, g *fgen) *m.F {
+	block := func(depth int) *m.F {
+		var mk func(d int) *m.F
+		mk = func(d int) *m.F {
+			var body *m.F
+			if d > 0 && rapid.Bool().Draw(t, "deeper") {
+				body = mk(d - 1)
+			} else {
+				body = m.AtomF(g.atom())
+			}
+			kind := rapid.SampledFrom([]string{"nested", "nested", "atLeast", "atMost"}).Draw(t, "blockKind")
+			n := 0
+			if kind != "nested" {
+				n = rapid.IntRange(0, 2).Draw(t, "blockN")
+			}
+			return m.Quant(kind, fmt.Sprintf("e%d", rapid.IntRange(0, g.edges-1).Draw(t, "blockEdge")), n, body)
+		}
+		return mk(depth)
+	}
+	k := rapid.IntRange(2, 3).Draw(t, "blocks")
+	ops := make([]*m.F, k)
+	for i := range ops {
+		ops[i] = block(2)
+	}
+	switch rapid.IntRange(0, 3).Draw(t, "blockConnective") {
+	case 0:
+		return m.Or(ops...)
+	case 1:
+		return m.Not(m.And(ops...))
+	case 2:
+		return m.If(ops[0], m.Or(ops[1:]...))
+	default:
+		if k == 3 {
+			return m.IfElse(ops[0], ops[1], ops[2])
+		}
+		return m.Or(ops...)
+	}
+}
+
 func genC15(t *rapid.T) c15Case {
 	g := &fgen{t: t, maxAtoms: 5, maxDepth: 3, maxWidth: 3, budget: 8, quant: true, edges: 2, multiPC: rapid.Bool().Draw(t, "multiPC")}
 	p := &m.Profile{Name: pick(t, []string{"c15", "profile", "validations", "My Profile"}, "pname")}
@@ -142,7 +184,9 @@ func genC15(t *rapid.T) c15Case {
 			class = "shapes.Thing"
 		}
 		var body *m.F
-		if rapid.IntRange(0, 2).Draw(t, "wideBody") == 0 {
+		if rapid.IntRange(0, 4).Draw(t, "blockRich") == 0 {
+			body = blockRichFormula(t, g)
+		} else if rapid.IntRange(0, 2).Draw(t, "wideBody") == 0 {
 			anyWide = true
 			// a wide or/and of small groups: the translator's cross product of failure branches, whose order depends
 			// on how the operands print (prefix names, key order)
